@@ -234,6 +234,9 @@ FAULT_RE = re.compile(r" => fault api:(\w+)")
 NAMED_ERRORS = {"OutputOverflow", "HttpParseTooManyHeaders"}
 
 
+AFTER_READ_ERROR = {"bread", "cread", "canproceed", "cended", "boundary", "mode", "proceed", "proceed!", "stopb"}
+
+
 def canon(kw, line):
     """What of a result line takes part in the comparison. `reason`: C10 asks that a reason is given exactly when
     the connection must close and that it names a condition that holds (judged by the oracle); WHICH of several
@@ -258,12 +261,19 @@ def compare(pid, impl_lines, model_lines):
     sig = set(); distinct = set()
     ci = -1
     prev_state = "none"
+    unspecified = None
     n = min(len(impl_lines), len(model_lines))
     for i in range(n):
         a, b = impl_lines[i], model_lines[i]
         if a.startswith("case "):
-            ci += 1; prev_state = "none"; continue
+            ci += 1; prev_state = "none"; unspecified = None; continue
         if a.startswith("meta "):
+            continue
+        if unspecified == "all" or (unspecified == "body" and opkw(a) in AFTER_READ_ERROR):
+            # no property says what these calls return from here on (C12 / C09 ask that they do not panic, which
+            # the oracle sees on the implementation's trace)
+            if " @" in a:
+                prev_state = a.rsplit(" @", 1)[1]
             continue
         issued_in = prev_state
         if " @" in a:
@@ -285,8 +295,17 @@ def compare(pid, impl_lines, model_lines):
                 feat += ":c0" if rp[1] == "0" else ":c+"
                 feat += ":o0" if rp[2] == "-" else ":o+"
             sig.add((kw, feat, a.rsplit(" @", 1)[-1]))
-        if canon(kw, a) != canon(kw, b):
+        if kw == "follow2" and "first-some=true" in a and "first-some=true" in b:
+            # the known finding D11: a second as_new_flow after one that returned a flow (the model records the
+            # pinned tree's panic; an implementation that returns an error instead is just as good)
+            unspecified = "all"
+            continue
+        ca, cb = canon(kw, a), canon(kw, b)
+        if ca != cb:
             mism.append((ci, i + 1, a, b))
+        elif kw in ("bread", "cread") and " => fault api:" in ca:
+            # a body that failed to decode: what later reads / queries on it return is nobody's business
+            unspecified = "body"
     if len(impl_lines) != len(model_lines):
         mism.append((ci, n + 1, f"<{len(impl_lines)} lines>", f"<{len(model_lines)} lines>"))
     return compared, mism, {"out_of_class": ooc, "branch_classes": len(sig), "distinct": len(distinct)}
